@@ -100,7 +100,7 @@ func runC02Cache(s *sim) {
 			e = &c02Ent{}
 			model[k] = e
 		}
-		must := e.present && now < e.expiry            // certainly remembered (strictly before expiry)
+		must := e.present && now < e.expiry             // certainly remembered (strictly before expiry)
 		gone := !e.present || sweptSince(e.expiry, now) // certainly forgotten
 		switch it.Op {
 		case "adv":
